@@ -210,6 +210,19 @@ func (n *c11Node) build() desync.Store {
 	panic("kind")
 }
 
+// c11Exclusive: one client only, so nobody else moves a failover group's active member between two attempts of a
+// request: after an error from member i the next attempt must go to member i+1 (cyclically).
+var c11Exclusive bool
+
+func (n *c11Node) kidIndex(member string) int {
+	for i, k := range n.kids {
+		if k.m != nil && k.m.name == member {
+			return i
+		}
+	}
+	return -1
+}
+
 type c11Cursor struct {
 	calls []*c11Call
 	pos   int
@@ -284,10 +297,16 @@ func (n *c11Node) evalGet(cu *c11Cursor, id int, viol *string) string {
 				healthy = true
 			}
 		}
+		prev := -1
 		for i := 0; i < len(n.kids); i++ {
 			c := cu.next(n.leafSet(), "get", id)
 			if c == nil {
 				return "error"
+			}
+			if k := n.kidIndex(c.member); c11Exclusive && prev >= 0 && k >= 0 && k != (prev+1)%len(n.kids) && *viol == "" {
+				*viol = fmt.Sprintf("failover group: after an error from member %d the next attempt went to member %d instead of %d", prev, k, (prev+1)%len(n.kids))
+			} else {
+				prev = k
 			}
 			if c.outcome == "ok" || c.outcome == "missing" {
 				return c.outcome
@@ -359,10 +378,16 @@ func (n *c11Node) evalHas(cu *c11Cursor, id int, viol *string) string {
 				healthy = true
 			}
 		}
+		prev := -1
 		for i := 0; i < len(n.kids); i++ {
 			c := cu.next(n.leafSet(), "has", id)
 			if c == nil {
 				return "error"
+			}
+			if k := n.kidIndex(c.member); c11Exclusive && prev >= 0 && k >= 0 && k != (prev+1)%len(n.kids) && *viol == "" {
+				*viol = fmt.Sprintf("failover group: after an error from member %d the next attempt went to member %d instead of %d", prev, k, (prev+1)%len(n.kids))
+			} else {
+				prev = k
 			}
 			if c.outcome != "error" {
 				return c.outcome
@@ -483,6 +508,8 @@ func runC11(c *fw.Case) {
 		chainB = c11GenChain(c, w, "b", nids)
 	}
 	nclients := c.Range(1, 4, "clients")
+	c11Exclusive = nclients == 1
+	defer func() { c11Exclusive = false }()
 	type planned struct {
 		kind string
 		id   int
